@@ -44,7 +44,9 @@ def uni2tex(text):
         decomp = unicodedata.decomposition(char).split()
 
         # base character followed by a combining mark
-        if nextcode in accents and not ord(char) in accents:
+        if nextcode in accents and not unicodedata.category(char).startswith(
+            "M"
+        ):
             out += "\\%s{%s}" % (accents[nextcode], char)
             i += 1
         # precomposed characters
@@ -52,6 +54,7 @@ def uni2tex(text):
             len(decomp) == 2
             and not decomp[0].startswith("<")
             and int(decomp[1], 16) in accents
+            and not unicodedata.category(chr(int(decomp[0], 16))).startswith("M")
         ):
             out += "\\%s{%s}" % (
                 accents[int(decomp[1], 16)],
